@@ -63,10 +63,17 @@ type scenario struct {
 	Size    int    `json:"size"`    // size of the content being Put
 	Damaged bool   `json:"damaged"` // pre-damaged output: only checksum-verified lookups are asserted
 	Target  int    `json:"target"`  // id being Put
+	// NoVerify: the entry is stored through PutNoVerify (which differs from Put
+	// only in a debugging cross-check; everything the statement says holds for it)
+	NoVerify bool `json:"no_verify,omitempty"`
 }
 
 func (s scenario) String() string {
-	return fmt.Sprintf("%s size=%d put-to=%s", s.Start, s.Size, idName[s.Target])
+	nv := ""
+	if s.NoVerify {
+		nv = " via PutNoVerify"
+	}
+	return fmt.Sprintf("%s size=%d put-to=%s%s", s.Start, s.Size, idName[s.Target], nv)
 }
 
 // newContent is what the faulted Put stores; other is the unrelated entry B->Y.
@@ -145,22 +152,28 @@ func scenarios(th bool) []scenario {
 	}
 	for _, st := range []string{"S0-empty", "S1-other-entries", "S2-overwrite-different-length", "S2-overwrite-same-length", "S2-same-content-again", "S5-index-present-output-trimmed"} {
 		for _, sz := range append(sizes, big) {
-			out = append(out, scenario{st, sz, false, 0})
+			out = append(out, scenario{st, sz, false, 0, false})
 		}
 	}
 	for _, st := range []string{"S2-overwrite-empty", "S6-same-content-under-other-id", "S6-same-content-under-other-id-and-overwrite", "S6-same-content-under-other-id-after-repair"} {
 		for _, sz := range []int{1, 40, big} {
-			out = append(out, scenario{st, sz, false, 0})
+			out = append(out, scenario{st, sz, false, 0, false})
 		}
 	}
 	for _, st := range []string{"S3-partial-output-0", "S3-partial-output-1", "S3-partial-output-n-1"} {
 		for _, sz := range []int{2, 40, big} {
-			out = append(out, scenario{st, sz, false, 0})
+			out = append(out, scenario{st, sz, false, 0, false})
 		}
 	}
 	for _, st := range []string{"S4-damaged-same-size", "S4-damaged-longer", "S4-damaged-shorter-wrong"} {
 		for _, sz := range []int{2, 40} {
-			out = append(out, scenario{st, sz, true, 0})
+			out = append(out, scenario{st, sz, true, 0, false})
+		}
+	}
+	// the other exported way of storing
+	for _, st := range []string{"S0-empty", "S2-overwrite-same-length", "S2-same-content-again", "S6-same-content-under-other-id", "S4-damaged-same-size"} {
+		for _, sz := range []int{2, 40} {
+			out = append(out, scenario{st, sz, st == "S4-damaged-same-size", 0, true})
 		}
 	}
 	return out
@@ -313,7 +326,11 @@ func runPut(dir string, tmpl *cache.Cache, s scenario, f fault) (res runResult) 
 	// the reader has been used before: it is handed over positioned in the middle
 	// of its data (Put documents that it reads the file from the start, twice)
 	nc := s.newContent()
-	_, _, res.PutErr = c.Put(ids[s.Target], &source{data: nc, off: len(nc) / 2, f: f})
+	if s.NoVerify {
+		_, _, res.PutErr = c.PutNoVerify(ids[s.Target], &source{data: nc, off: len(nc) / 2, f: f})
+	} else {
+		_, _, res.PutErr = c.Put(ids[s.Target], &source{data: nc, off: len(nc) / 2, f: f})
+	}
 	return res
 }
 
